@@ -84,6 +84,7 @@ type Event struct {
 
 	// data
 	Item   Item    `json:"item"`
+	Item2  Item    `json:"item2"`
 	Key    Item    `json:"key"`
 	Cond   OptAst  `json:"cond"`
 	Upd    Ast     `json:"upd"`
@@ -252,6 +253,10 @@ func (r *Resp) MarshalJSON() ([]byte, error) {
 	case "bg":
 		m["responses"] = r.Responses
 		m["unprockeys"] = r.UnprocKeys
+	case "alias":
+		m["item"] = r.Item
+		m["attrs"] = r.Attrs
+		m["count"] = r.Count
 	case "walk":
 		m["full"] = r.Full
 		m["pages"] = r.Pages
